@@ -604,6 +604,7 @@ func ruleVD3(c *Ctx) {
 			fn := c.Name(f)
 			construct := em.construct(t)
 			pos := c.Pos(em.Call.Pos())
+			c.claimantArgMatchesEmission(em, t, vci)
 			if rt != nil && em.Fields["ID"] != nil && valueFromCallTo(em.Fields["ID"], rt) {
 				// oldest-ready claim: tasks-only ready list; agent must be checked non-empty
 				agentOK := c.nonEmptyChecked(em.Fields["AgentID"], f)
